@@ -17,7 +17,7 @@ ASSUMPTIONS = ['only the unambiguous sub-language of each map is judged; shadowe
                'ISA11 (repetition separator) and ISA16 are characters of the declared character set',
                'loops that share one map position are an unordered group (the position is the order the map declares, not the listing order of the XML): a fifth of the documents '
                'emit their instances interleaved, the first instance of every required sibling first']
-REQUIRED_COUNTERS = ['docs', 'accepted', 'segments', 'reach:walk', 'reach:_check_loop_usage', 'reach:_flush_mandatory_segs', 'reach:element_if.is_valid',
+REQUIRED_COUNTERS = ['docs:with-TA1:after-isa', 'docs:with-TA1:before-iea', 'docs:with-TA1:several-interchanges', 'docs', 'accepted', 'segments', 'reach:walk', 'reach:_check_loop_usage', 'reach:_flush_mandatory_segs', 'reach:element_if.is_valid',
                      'reach:composite_if.is_valid', 'maps-with-accepted-docs', 'acks-parsed', 'docs:sibling-loops-interleaved', 'docs:sibling-loops-X,Y,X', 'docs:alternating-transaction-types']
 MIN_CASES = {'quick': 250, 'thorough': 8000}
 WATCHDOG_S = {'quick': 1200, 'thorough': 7200}
@@ -149,6 +149,15 @@ def run(ctx):
                 ctx.count('docs:sibling-loops-interleaved')
             if doc.meta.get('xyx_groups'):
                 ctx.count('docs:sibling-loops-X,Y,X')
+            if k % 4 == 1:
+                # the envelope map has one more node: the interchange acknowledgement, at the position of the groups - in its usual place
+                # after the ISA, or after the last group
+                where = ['after-isa', 'before-iea'][(k // 4) % 2]
+                doc = gen_doc.add_ta1(doc, where)
+                case = dict(case, ta1=where)
+                ctx.count('docs:with-TA1:' + where)
+                if sum(1 for r in doc.recs if r.node.id == 'ISA') > 1:
+                    ctx.count('docs:with-TA1:several-interchanges')
             n += 1
             for path, cnt in doc.shadowed.items():
                 ctx.add('shadowed_nodes', e['file'] + '|' + path)
@@ -230,4 +239,6 @@ def replay(ctx, case):
             ctx.viol('conformant:%s:%s' % (case['entry']['file'], res.exc_key), 'validation raises', case, {'exc': repr(res.exc)})
         return
     doc = gen_doc.gen_document(case['entry'], case['gen_seed'], **case['params'])
+    if case.get('ta1'):
+        doc = gen_doc.add_ta1(doc, case['ta1'])
     judge(ctx, doc, case)
